@@ -17,7 +17,7 @@
 (* HTML tokenizer (ParseAttrs) so that "parsing the output yields exactly  *)
 (* those names and values" is a statement TLC can evaluate: RoundTrip.     *)
 (***************************************************************************)
-EXTENDS HtmlText
+EXTENDS HtmlText, TLC
 
 (* ------------------------------------------- HTML attribute tokenizer --- *)
 (* Input: the text between "<div " and the final ">" of a start tag.  Output:*)
@@ -203,42 +203,84 @@ AppendLaw(c) == \A n \in SeqRange(Names(c)) :
 (* ------------- named deviations of the current implementation (KNOWN_FINDINGS) --- *)
 (* Each describes exactly what the code does on the matched shape; a result that     *)
 (* does not conform is a known finding only if it EQUALS the prediction.             *)
-KwOf(c, n) == Vals(SelectSeq(c.kws, LAMBDA e : e.n = n))
-\* append_attributes does `old += " " + new` on the raw values: a number on either side raises.
-\* (Repeated keywords are first joined among themselves with str(), so two or more keywords of a
-\* name form a string before they meet the base value.)
-DevNumAppend(c) == \E n \in SeqRange(Names(c)) :
-                     /\ Len(Base(c, n)) = 1 /\ Len(KwOf(c, n)) >= 1
-                     /\ \A i \in 1..Len(Parts(c, n)) : Textual(Parts(c, n)[i])
-                     /\ \/ Base(c, n)[1].t = "num"
-                        \/ Len(KwOf(c, n)) = 1 /\ KwOf(c, n)[1].t = "num"
-\* merge_repeated_kwargs remembers the position of a keyword in the ORIGINAL parameter list but uses
-\* it on the list from which earlier repeats were already dropped: a name first seen after an earlier
-\* repeat and repeated itself is written to the wrong slot (IndexError past the end, otherwise another
-\* parameter is overwritten and the name then occurs twice: TypeError "multiple values").
+(*                                                                                   *)
+(* 1. merge_repeated_kwargs joins repeated keywords (with str()) before anything     *)
+(*    else.  It remembers the position of a keyword in the ORIGINAL parameter list   *)
+(*    but uses it on the list from which earlier repeats were already dropped: a     *)
+(*    name first seen after an earlier repeat and then repeated itself is written to *)
+(*    the wrong slot - past the end (IndexError), or over another keyword, which is  *)
+(*    lost, while the name itself now occurs twice (TypeError "multiple values" for  *)
+(*    names that are Python identifiers; for other names the later one wins).        *)
+(* 2. append_attributes does `old += " " + new` on raw values: a number on either    *)
+(*    side raises TypeError.                                                         *)
+(* 3. attribute names are entity-escaped but otherwise written as they are.          *)
+PyStr(v) == CASE v.t = "none" -> "None" [] v.t = "true" -> "True" [] v.t = "false" -> "False" [] OTHER -> v.s
+PyKeywords == {"False", "None", "True", "and", "as", "assert", "async", "await", "break", "class", "continue",
+               "def", "del", "elif", "else", "except", "finally", "for", "from", "global", "if", "import", "in",
+               "is", "lambda", "nonlocal", "not", "or", "pass", "raise", "return", "try", "while", "with", "yield"}
+NonIdentChars == {"-", "@", ":", ".", "#", " ", "=", "/", "&", "<", ">", "\"", "'", "\t", "\n", ";", "%", "{", "}",
+                  "!", "$", "+", "~", "*", "(", ")", ",", "?", "[", "]", "|", "^", "`", "\\"}
+Digits == {"0", "1", "2", "3", "4", "5", "6", "7", "8", "9"}
+PlainKwName(n) == n # "" /\ ~HasAny(n, NonIdentChars) /\ Ch(n, 1) \notin Digits /\ n \notin PyKeywords
+
 DevRepeatShift(c) ==
   \E p, q, r \in 1..Len(c.kws) :
     /\ p < q /\ q < r
     /\ \E p0 \in 1..(p - 1) : c.kws[p0].n = c.kws[p].n
     /\ \A q0 \in 1..(q - 1) : c.kws[q0].n # c.kws[q].n
     /\ c.kws[r].n = c.kws[q].n
-\* attribute names are entity-escaped but otherwise written as they are
+\* the implemented merge: res = surviving keyword list, first[n] = index of n's first occurrence in kws,
+\* cur[n] = value merged so far
+RECURSIVE MR(_, _, _, _, _)
+MR(kws, i, res, first, cur) ==
+  IF i > Len(kws) THEN [err |-> "", res |-> res]
+  ELSE LET n == kws[i].n IN
+       IF n \notin DOMAIN first
+       THEN MR(kws, i + 1, Append(res, kws[i]), first @@ (n :> i), cur @@ (n :> kws[i].v))
+       ELSE LET merged == [t |-> "str", s |-> PyStr(cur[n]) \o " " \o PyStr(kws[i].v)] IN
+            IF first[n] > Len(res) THEN [err |-> "IndexError", res |-> res]
+            ELSE MR(kws, i + 1, [res EXCEPT ![first[n]] = [n |-> n, v |-> merged]], first, [cur EXCEPT ![n] = merged])
+Merged(c) == MR(c.kws, 1, <<>>, <<>>, <<>>)
+DupPlain(res) == \E i, j \in 1..Len(res) : i < j /\ res[i].n = res[j].n /\ PlainKwName(res[i].n)
+LastOnly(res) == LET keep == {i \in 1..Len(res) : \A j \in (i + 1)..Len(res) : res[j].n # res[i].n}
+                     RECURSIVE Pick(_)
+                     Pick(i) == IF i > Len(res) THEN <<>> ELSE (IF i \in keep THEN <<res[i]>> ELSE <<>>) \o Pick(i + 1)
+                 IN Pick(1)
+NumAppendRaises(c2) == \E n \in SeqRange(Names(c2)) :
+                         /\ Len(Base(c2, n)) = 1 /\ Len(Parts(c2, n)) = 2
+                         /\ \A i \in 1..2 : Textual(Parts(c2, n)[i])
+                         /\ \E i \in 1..2 : Parts(c2, n)[i].t = "num"
 DevEmitText(items) ==
   LET its == SelectSeq(items, LAMBDA it : it.kind \in {"bare", "val"}) IN
   JoinSp([i \in 1..Len(its) |-> EmitOne([its[i] EXCEPT !.n = Escape(@)],
                                          IF its[i].kind = "val" THEN CHOOSE v \in its[i].vals : TRUE ELSE "")])
-NoDev == [key |-> "", err |-> "", attrs |-> <<>>]
-DevAttrs(c, items) ==
-  IF DevRepeatShift(c) THEN [key |-> "repeated-keyword-after-earlier-repeat:IndexError-or-TypeError",
-                             err |-> "IndexError|TypeError", attrs |-> <<>>]
-  ELSE IF DevNumAppend(c) THEN [key |-> "append-number:TypeError", err |-> "TypeError", attrs |-> <<>>]
-  ELSE IF /\ \E i \in 1..Len(items) : items[i].cls = "unrep" /\ items[i].kind \in {"bare", "val"}
-          /\ \A i \in 1..Len(items) : Cardinality(items[i].vals) <= 1 /\ items[i].kind # "zone"
-  THEN [key |-> "attr-name-unrepresentable:written-unchecked", err |-> "",
-        attrs |-> ParseAttrs(DevEmitText(items)).attrs]
-  ELSE NoDev
-DevExplains(d, obs) == /\ d.key # ""
-                       /\ IF d.err = "IndexError|TypeError" THEN obs.err \in {"IndexError", "TypeError"}
-                          ELSE IF d.err # "" THEN obs.err = d.err
-                          ELSE obs.err = "" /\ ~obs.spill /\ obs.attrs = d.attrs
+KeyShift == "repeated-keyword-after-earlier-repeat:merged-into-wrong-slot"
+KeyNum   == "append-number:TypeError"
+KeyName  == "attr-name-unrepresentable:written-unchecked"
+DevRec(key, mode, err, attrs, items, errok) ==
+  [key |-> key, mode |-> mode, err |-> err, attrs |-> attrs, items |-> items, errok |-> errok]
+NoDev == DevRec("", "", "", <<>>, <<>>, {})
+DupAny(res) == \E i, j \in 1..Len(res) : i < j /\ res[i].n = res[j].n
+DevAttrs(c) ==
+  LET m == Merged(c)
+      shifted == DevRepeatShift(c)
+      k(other) == IF shifted THEN KeyShift ELSE other IN
+  IF m.err # "" THEN DevRec(KeyShift, "err", m.err, <<>>, <<>>, {})
+  ELSE IF DupPlain(m.res) THEN DevRec(KeyShift, "err", "TypeError", <<>>, <<>>, {})
+  ELSE LET c2 == [c EXCEPT !.kws = LastOnly(m.res)]
+           its2 == Items(c2) IN
+       \* a name that is not a Python identifier occurring twice: today the later one wins silently;
+       \* rejecting it like an identifier (TypeError) is predicted as well
+       IF DupAny(m.res) THEN DevRec(KeyShift, "items", "", <<>>, its2, ErrOk(its2) \cup {"TypeError"})
+       ELSE IF NumAppendRaises(c2) THEN DevRec(k(KeyNum), "err", "TypeError", <<>>, <<>>, {})
+       ELSE IF /\ \E i \in 1..Len(its2) : its2[i].cls = "unrep" /\ its2[i].kind \in {"bare", "val"}
+               /\ \A i \in 1..Len(its2) : Cardinality(its2[i].vals) <= 1 /\ its2[i].kind # "zone"
+       THEN DevRec(k(KeyName), "parse", "", ParseAttrs(DevEmitText(its2)).attrs, <<>>, {})
+       ELSE IF shifted THEN DevRec(KeyShift, "items", "", <<>>, its2, ErrOk(its2))
+       ELSE NoDev
+DevExplains(d, obs) ==
+  /\ d.key # ""
+  /\ CASE d.mode = "err"   -> obs.err = d.err
+       [] d.mode = "parse" -> obs.err = "" /\ ~obs.spill /\ obs.attrs = d.attrs
+       [] d.mode = "items" -> Conform([items |-> d.items, err |-> d.errok], obs)
 =============================================================================
